@@ -436,9 +436,12 @@ class BaseFeatureWriter:
             x, y = collapse_varscalar(x_value), collapse_varscalar(y_value)
         else:
             if anchor is None:
-                if glyphName not in self.context.font:
+                # look the glyph up in the (possibly pre-processed) glyph set the
+                # other writers use, not in the unfiltered source font
+                glyphSet = self.getOrderedGlyphSet()
+                if glyphName not in glyphSet:
                     return None
-                glyph = self.context.font[glyphName]
+                glyph = glyphSet[glyphName]
                 anchors = [
                     anchor for anchor in glyph.anchors if anchor.name == anchorName
                 ]
